@@ -138,9 +138,10 @@ class Select(TypedExpression):
                 if comment_str:
                     if not comment_str.endswith("\n"):
                         comment_str += "\n"
+                    # The comments carry their own blank lines; the blank line
+                    # of the gap stands behind them, not in front.
                     rebuild_string = (
-                        f"{rebuild_string}{default_sep}{comment_str}"
-                        f"{or_indent}or {default_str}"
+                        f"{rebuild_string}\n{comment_str}{or_indent}or {default_str}"
                     )
                 else:
                     rebuild_string = (
